@@ -492,8 +492,15 @@ class ObservableResource(Resource, metaclass=abc.ABCMeta):
     async def _render_to_pipe(self, pipe: Pipe) -> None:
         from .protocol import ServerObservation
 
-        # If block2:>0 comes along, we'd just ignore the observe
-        if pipe.request.opt.observe != 0:
+        from .numbers.codes import GET, FETCH
+
+        # If block2:>0 comes along, we'd just ignore the observe.
+        #
+        # Observe is only defined for GET (RFC 7641) and FETCH (RFC 8132). On
+        # any other method it is an unknown elective option and ignored: a
+        # PUT must not be taken for a registration and be rendered again on
+        # every state change (including the one it causes itself).
+        if pipe.request.opt.observe != 0 or pipe.request.code not in (GET, FETCH):
             return await Resource._render_to_pipe(self, pipe)
 
         # If block1 happens here, we can probably just not support it for the
